@@ -941,28 +941,33 @@ def _run(world: World, plan):
     world.run(main())
 
     # ------------------------------------------------------------------ clause (c): counting
-    open_session = None
+    # "destroyed exactly once": per initialised session object, one SessionDestroyedEvent iff its connection was
+    # lost (the order in which late listeners see the two events is not part of the statement)
+    inits = []
     for (t, kind, sess) in session_events:
-        if kind == 'init':
-            if open_session is not None:
-                world.violate('C16.destroy_count', what='missing', detail='next session initialised first')
-            open_session = sess
-        else:
-            if open_session is None:
-                world.violate('C16.destroy_count', what='extra')
-            elif sess is not open_session:
-                world.violate('C16.destroy_count', what='wrong_session')
-                open_session = None
-            else:
-                open_session = None
-    if open_session is not None and not link_up():
-        cs = alice_conns()
-        lost_at = None
-        if cs:
-            lost_at = (tap.lost.get(cs[-1].id) or (None, None))[0]
-        if lost_at is None or loop.time() - lost_at >= 1.0:
-            world.violate('C16.destroy_count', what='missing', detail='connection lost, session kept',
-                          stopped=ctx['stopped'])
+        if kind == 'init' and not any(sess is x for x in inits):
+            inits.append(sess)
+    for (t, kind, sess) in session_events:
+        if kind == 'destroy' and not any(sess is x for x in inits):
+            world.violate('C16.destroy_count', what='extra', detail='session never announced')
+    for i, sess in enumerate(inits):
+        n_init = len([e for e in session_events if e[1] == 'init' and e[2] is sess])
+        n_destroy = len([e for e in session_events if e[1] == 'destroy' and e[2] is sess])
+        last = i == len(inits) - 1
+        lost = True
+        if last and link_up():
+            lost = False
+        if n_init != 1:
+            world.violate('C16.destroy_count', what='announced_twice')
+        if lost and n_destroy == 0:
+            if last:
+                cs = alice_conns()
+                lost_at = (tap.lost.get(cs[-1].id) or (None, None))[0] if cs else None
+                if lost_at is not None and loop.time() - lost_at < 1.0:
+                    continue    # lost in the last second of the run
+            world.violate('C16.destroy_count', what='missing', stopped=ctx['stopped'], last=last)
+        elif n_destroy > (1 if lost else 0):
+            world.violate('C16.destroy_count', what='extra', n=n_destroy, lost=lost)
 
     # ------------------------------------------------------------------ bookkeeping
     n_init = len([e for e in session_events if e[1] == 'init'])
